@@ -5,19 +5,22 @@ from .pack import job
 def jobs(tier):
     J = []; ck = ('c03',)
     for alg in ('ff', 'bf'):
-        for n in (1, 2, 3, 4):
+        for n in (1, 2, 3, 4, 5):
             J.append(job(alg, n, checks=ck))
-        J.append(job(alg, 5, checks=ck, order='desc')); J.append(job(alg, 5, checks=ck, order='asc'))
+        J.append(job(alg, 6, checks=ck, order='desc')); J.append(job(alg, 6, checks=ck, order='asc'))
         J.append(job(alg, 3, checks=ck, pres='list')); J.append(job(alg, 4, checks=ck, pres='list'))
         J.append(job(alg, 3, checks=ck, den=4)); J.append(job(alg, 4, checks=ck, den=4, pres='list'))
     for alg in ('ffd', 'bfd'):
         for n in (1, 2, 3, 4):
             J.append(job(alg, n, checks=ck))
+        J.append(job(alg, 5, checks=ck, order='desc')); J.append(job(alg, 6, checks=ck, order='desc'))
         J.append(job(alg, 4, checks=ck, pres='list')); J.append(job(alg, 3, checks=ck, den=4))
     for B in (7, 10, 20):
         for n in (1, 2, 3, 4):
             J.append(job('bc', n, B=B, pres='list', checks=ck))
-    J.append(job('bc', 5, B=10, pres='list', order='desc', checks=ck))
+    for B in (7, 10, 12, 15):
+        J.append(job('bc', 5, B=B, pres='list', order='desc', checks=ck)); J.append(job('bc', 6, B=B, pres='list', order='desc', checks=ck))
+    J.append(job('bc', 7, B=7, pres='list', order='desc', checks=ck)); J.append(job('bc', 7, B=12, pres='list', order='desc', checks=ck))
     J.append(job('bc', 3, B=100, pres='list', checks=ck))
     if tier == 'thorough':
         for alg in ('ff', 'bf'):
@@ -30,6 +33,6 @@ def jobs(tier):
 
 
 ASSUMPTIONS = ['S1 numpy shim', 'S2 exact arithmetic (fractions with denominator 4 are exact in float64)',
-               'bin completion: concrete bin sizes 7, 10, 20, 100 (its bound divides by the bin size, which the encoding keeps linear)']
-OUTSIDE = ['more than 5 items in the quick tier / 7 in the thorough tier', 'bin completion with other bin sizes',
+               'bin completion: concrete bin sizes 7, 10, 12, 15, 20, 100 (its bound divides by the bin size, which the encoding keeps linear)']
+OUTSIDE = ['more than 6-7 items', 'bin completion with other bin sizes',
            'bin completion on named items (known finding, see C07)']
